@@ -39,6 +39,10 @@ def auto_models(seed):
             vars_[nm] = ["const", round(0.1 * (i + 1) + float(rng.integers(0, 9)) * 0.01, 3)]
         op = dict(name="opx", eqs=[["x1", "de", t1], ["x2", "de", t2]], vars=vars_)
         out.append((f"AU-{n}-params", dict(n_params=n), gen.model([op], {"p": dict(ops=["opx"])})))
+        if n in (3, 12):
+            # the differential equations are listed in the opposite order of the declaration of the states
+            op2 = dict(name="opx", eqs=[["x2", "de", t2], ["x1", "de", t1]], vars=vars_)
+            out.append((f"AU-{n}-params-equations-reversed", dict(n_params=n, reversed=True), gen.model([op2], {"p": dict(ops=["opx"])})))
     return out
 
 
@@ -112,6 +116,12 @@ def case_fn(c):
         if unames.get(i) != name or abs(val - values[name]) > 1e-9:
             fail("auto: unames / STPNT y(i) follow the state layout with the declared initial values", var=name,
                  observed=dict(unames=unames.get(i), y=val), expected=values[name])
+    body0 = src[src.index("subroutine vfx"):src.index("end subroutine")]
+    read = {int(i): nm for nm, i in re.findall(r"^\s*(\w+)\s*=\s*y\((\d+)\)\s*$", body0, re.M)}
+    for i, nm in read.items():
+        if unames.get(i) != nm:
+            fail("auto: unames(i) names the state variable the vector field reads from y(i)", var=nm, observed=unames.get(i), expected=nm)
+            break
     if ndim != len(states) or sorted(unames.values()) != sorted(states):
         fail("auto: NDIM and unames match the model's state variables", observed=dict(NDIM=ndim, unames=unames), expected=states)
     if npar < max(slots) or npar > max(max(slots), 36):
@@ -199,7 +209,7 @@ def case_fn(c):
 def run(chk, site="C18/auto-files", sizes=None):
     cases = []
     for tag, feats, model in auto_models(chk.seed):
-        if sizes is None or feats["n_params"] in sizes:
+        if sizes is None or (feats["n_params"] in sizes and not feats.get("reversed")):
             cases.append(dict(tag=tag, features=feats, model=model, seed=chk.seed))
     driver.run_family(
         chk, "auto07p-text-consistency", cases, case_fn, site=site,
